@@ -16,9 +16,11 @@
 (*           from the request echoed in the event and judges every group of  *)
 (*           clauses; a rejected event is printed with the groups it breaks: *)
 (*             "REJ <<id, writer, modelDec, domain, lock, modelEnc>>"        *)
-(*  PkJudge  real speech-mode packets of opus_encode, parsed by the model    *)
-(*           from the BYTES with the full-width range decoder (RangeDec32):  *)
-(*           "PKREJ <<id, frame, ...>>"                                       *)
+(*           Events "pk" are real speech-mode packets of opus_encode: the    *)
+(*           model parses them from the BYTES with the full-width range      *)
+(*           decoder (RangeDec32): "PKREJ <<id, packet, lock-step, model>>", *)
+(*           "PKSKIP" (not a speech-only code-0 packet, or a redundant MDCT  *)
+(*           frame follows), "PKLBRR <<id, packet, LBRR frames parsed>>"     *)
 (***************************************************************************)
 EXTENDS SilkIdx, TLC
 VARIABLE l
@@ -32,7 +34,6 @@ RqOf(e) == [fs |-> e.fs, nb |-> e.nb, fi |-> e.fi, lbrr |-> e.lb, cond |-> e.cc,
 \* ops as pairs <<table reference, symbol>>; the sign ops are numbered 32000 + k
 PairOf(op) == IF op[1] = 8 THEN <<1000 * X_SIGN + op[3], op[4]>> ELSE <<op[3], op[4]>>
 FlatPairs(ops) == [j \in 1..(2 * Len(ops)) |-> PairOf(ops[(j + 1) \div 2])[2 - (j % 2)]]
-SortedTags(S) == S
 PlanOf(e) ==
   LET r == SxDecFrame(RqOf(e)) IN
   "PLAN F " \o ToString(e.id) \o " | " \o ToString(r.nidx) \o " | " \o ToString(FlatPairs(r.ops)) \o " | " \o ToString(r.dl)
@@ -83,6 +84,8 @@ ModelEncOK(e) ==
   e.tw = 1 =>
     LET E == SxEncFrame(RqOf(e), RecOf(e, ""), e.pu, e.erl) IN
     /\ e.erl \in 0..(N_RATE - 2)
+    \* (a record outside the encoder's input domain is not given to the model's encoder: the clause fails instead)
+    /\ SxEncWantOK(RqOf(e), RecOf(e, "")) /\ Len(e.pu) = SHELL * SxNBlocks(SxFrameLen(e.fs, e.nb)) /\ \A k \in 1..Len(e.pu) : e.pu[k] \in (0 - 127)..127
     /\ <<e.eih, e.eil>> = Halves(E.ci) /\ e.eti = Tell(E.ci)
     /\ <<e.efh, e.efl>> = Halves(E.c) /\ e.etf = Tell(E.c) /\ e.eff = TellFrac(E.c)
     /\ e.eps = E.ps /\ e.epl = E.pl
@@ -125,22 +128,50 @@ PkFrames(buf, h, fl, st, i, mem) ==      \* fl = <<vad flags per channel>>; mem 
        PkFrames(buf, h, fl, [d |-> s.d, c |-> s.c], i + 1,
                 [ps |-> <<m.ps, IF side THEN s.ps ELSE mem.ps[2]>>, pl |-> <<m.pl, IF side THEN s.pl ELSE mem.pl[2]>>, pdom |-> mo[2],
                  n |-> mem.n + (IF side THEN 2 ELSE 1)])
-\* <<judged, lock-step, model>>
+\* per-frame LBRR flags of a channel whose LBRR flag is set: one frame - that frame; else a symbol (value+1 = bit set)
+PkLbrrSym(buf, h, st, flag) ==
+  IF flag = 0 THEN <<st, <<0, 0, 0>>>>
+  ELSE IF h.nf = 1 THEN <<st, <<1, 0, 0>>>>
+  ELSE LET r == PkTbl(buf, st, IF h.nf = 2 THEN T_LBRR2 ELSE T_LBRR3) IN
+       <<r[1], [j \in 1..3 |-> IF j <= h.nf THEN ((r[2] + 1) \div P2(j - 1)) % 2 ELSE 0]>>
+\* the LBRR frames come before the regular frames: frame by frame, mid before side, each coded conditionally iff the same
+\* channel had an LBRR frame just before (silk_Decode, the loop that skips them; FrameHdr!SkipLbrr)
+RECURSIVE PkLbrrFrames(_, _, _, _, _, _, _)
+PkLbrrFrames(buf, h, lb, st, i, n, mem) ==
+  IF i >= h.nf THEN <<st, mem>>
+  ELSE IF n > h.nch THEN PkLbrrFrames(buf, h, lb, st, i + 1, 1, mem)
+  ELSE IF lb[n][i + 1] = 0 THEN PkLbrrFrames(buf, h, lb, st, i, n + 1, mem)
+  ELSE LET s1 == IF h.nch = 2 /\ n = 1
+                 THEN LET p == PkPred(buf, st) IN IF lb[2][i + 1] = 0 THEN PkTbl(buf, p, T_MIDONLY)[1] ELSE p
+                 ELSE st
+           cond == IF i > 0 /\ lb[n][i] = 1 THEN CODE_CONDITIONALLY ELSE CODE_INDEPENDENTLY
+           f == SxDecFrameAt([fs |-> h.fs, nb |-> h.nb, fi |-> i, lbrr |-> 1, cond |-> cond, vad |-> 0, prevSig |-> mem.ps[n], prevLag |-> mem.pl[n],
+                              vals |-> <<>>, pm |-> 2, pol |-> 0, buf |-> buf], s1.c, s1.d) IN
+       PkLbrrFrames(buf, h, lb, [d |-> f.d, c |-> f.c], i, n + 1,
+                    [mem EXCEPT !.ps[n] = f.ps, !.pl[n] = f.pl, !.n = @ + 1])
+\* <<judged, lock-step, model, number of LBRR frames>>
 PkVerdict(e) ==
   LET h == PkHdr(e)
       buf == SubSeq(e.b, 2, e.n)
       lock == e.er = e.n /\ e.dr = e.frame /\ <<e.eh, e.el>> = <<e.rh, e.rl>> IN
-  IF e.n < 2 \/ ~h.speech \/ h.code # 0 THEN <<FALSE, lock, TRUE>>
+  IF e.n < 2 \/ ~h.speech \/ h.code # 0 THEN <<FALSE, lock, TRUE, 0>>
   ELSE LET s0 == [d |-> R!Init(buf, e.n - 1), c |-> RcInit]
            f1 == PkBits(buf, s0, h.nf + 1)
-           f2 == IF h.nch = 2 THEN PkBits(buf, f1[1], h.nf + 1) ELSE <<f1[1], <<0, 0, 0, 0>>>> IN
-       IF f1[2][h.nf + 1] = 1 \/ f2[2][h.nf + 1] = 1 THEN <<FALSE, lock, TRUE>>          \* LBRR data: not produced by these runs
-       ELSE LET r == PkFrames(buf, h, <<f1[2], f2[2]>>, f2[1], 0, [ps |-> <<0, 0>>, pl |-> <<0, 0>>, pdom |-> 0, n |-> 0])
-                st == r[1] IN
-            <<TRUE, lock,
-              /\ <<e.eh, e.el>> = R!RngHalves(st.d.rm) /\ st.c.rm = st.d.rm /\ st.c.nbits = st.d.nbits
-              \* (the bit count may pass the end of the packet: the encoder strips trailing zero bytes of a speech-only packet)
-              /\ e.frame = (e.fsr \div 1000) * h.ms>>
+           f2 == IF h.nch = 2 THEN PkBits(buf, f1[1], h.nf + 1) ELSE <<f1[1], <<0, 0, 0, 0>>>>
+           l1 == PkLbrrSym(buf, h, f2[1], f1[2][h.nf + 1])
+           l2 == IF h.nch = 2 THEN PkLbrrSym(buf, h, l1[1], f2[2][h.nf + 1]) ELSE <<l1[1], <<0, 0, 0>>>>
+           mem0 == [ps |-> <<0, 0>>, pl |-> <<0, 0>>, pdom |-> 0, n |-> 0]
+           lf == PkLbrrFrames(buf, h, <<l1[2], l2[2]>>, l2[1], 0, 1, mem0)
+           r == PkFrames(buf, h, <<f1[2], f2[2]>>, lf[1], 0, [lf[2] EXCEPT !.n = 0])
+           st == r[1] IN
+       \* opus_decode_frame: 17 or more bits left after the speech frames of a speech-only packet = a redundant MDCT frame follows
+       \* (the encoder adds one when the speech layer switches bandwidth); its range is outside this module: not judged
+       IF Tell(st.c) + 17 <= 8 * (e.n - 1) THEN <<FALSE, lock, TRUE, lf[2].n>> ELSE
+       <<TRUE, lock,
+         /\ <<e.eh, e.el>> = R!RngHalves(st.d.rm) /\ st.c.rm = st.d.rm /\ st.c.nbits = st.d.nbits
+         \* (the bit count may pass the end of the packet: the encoder strips trailing zero bytes of a speech-only packet)
+         /\ e.frame = (e.fsr \div 1000) * h.ms,
+         lf[2].n>>
 
 FrVerdictOK(v) == v = <<TRUE, TRUE, TRUE, TRUE, TRUE>>
 Judge == LET e == Tr[l] IN
@@ -148,6 +179,7 @@ Judge == LET e == Tr[l] IN
     [] e.k = "pk" -> LET v == PkVerdict(e) IN
                      /\ (v[1] \/ PrintT("PKSKIP " \o ToString(<<e.id, e.f>>)))
                      /\ ((v[2] /\ v[3]) \/ PrintT("PKREJ " \o ToString(<<e.id, e.f, v[2], v[3]>>)))
+                     /\ (v[4] = 0 \/ PrintT("PKLBRR " \o ToString(<<e.id, e.f, v[4]>>)))
     [] e.k = "bad" -> PrintT("BAD " \o ToString(l))
     [] OTHER -> TRUE
 \* a strict version for single events (replay): the invariant itself fails
@@ -159,14 +191,6 @@ Dbg == LET e == Tr[l] IN
             \o " c " \o ToString(<<Halves(D.c), Tell(D.c), TellFrac(D.c)>>) \o " nidx " \o ToString(D.nidx) \o " nops " \o ToString(Len(D.ops))
             \o " ps/pl " \o ToString(<<D.ps, D.pl>>) \o " sums " \o ToString(D.sums) \o " nls " \o ToString(D.nls) \o " dl " \o ToString(D.dl))
 
-PkDbg == LET e == Tr[l] IN
-  e.k = "pk" =>
-    LET h == PkHdr(e)  buf == SubSeq(e.b, 2, e.n)
-        s0 == [d |-> R!Init(buf, e.n - 1), c |-> RcInit]
-        f1 == PkBits(buf, s0, h.nf + 1)
-        f2 == IF h.nch = 2 THEN PkBits(buf, f1[1], h.nf + 1) ELSE <<f1[1], <<0, 0, 0, 0>>>>
-        r == PkFrames(buf, h, <<f1[2], f2[2]>>, f2[1], 0, [ps |-> <<0, 0>>, pl |-> <<0, 0>>, pdom |-> 0, n |-> 0]) IN
-    PrintT("PKDBG " \o ToString(<<e.id, e.f, h, f1[2], f2[2], R!RngHalves(r[1].d.rm), <<e.eh, e.el>>, Tell(r[1].c), 8 * (e.n - 1), r[1].c.rm = r[1].d.rm, r[1].c.nbits, r[1].d.nbits, r[2]>>))
 Init == l \in 1..Len(Tr)
 Next == UNCHANGED l
 Spec == Init /\ [][Next]_l
